@@ -76,40 +76,60 @@ pub fn width_code(w: Option<usize>) -> u16 {
     }
 }
 
-/// An element of D of the given (concrete) kind with symbolic payload.
-pub fn elem<S: Src>(s: &mut S, kind: u8) -> TE {
+/// The symbolic payload of an element of D (drawn once; elements are BUILT from it every time
+/// they are needed instead of being cloned: `TypeExpression::clone` recurses through
+/// `Vec<Box<TypeExpression>>`, which CBMC cannot bound cheaply).
+#[derive(Clone, Copy)]
+pub struct Payload {
+    pub kind: u8,
+    pub wc: u8,
+    pub uc: u8,
+    pub a: bool,
+    pub b: bool,
+}
+
+pub fn payload<S: Src>(s: &mut S, kind: u8) -> Payload {
+    let mut p = Payload { kind, wc: 0, uc: 0, a: false, b: false };
     match kind {
-        K_ANY => TE::Any,
-        K_BYTES => TE::Bytes,
         K_WORD => {
-            let wc = s.u8();
-            let uc = s.u8();
-            s.assume(wc < 6 && uc < 8);
-            let usage = usage_of(uc);
-            let width = WIDTHS[wc as usize];
+            p.wc = s.u8();
+            p.uc = s.u8();
+            s.assume(p.wc < 6 && p.uc < 8);
             // fixed-width usages occur at their own width only
-            match usage.size() {
-                Some(sz) => s.assume(width == Some(sz)),
+            match usage_of(p.uc).size() {
+                Some(sz) => s.assume(WIDTHS[p.wc as usize] == Some(sz)),
                 None => {}
             }
-            TE::Word { width, usage }
         }
-        K_MAPPING => {
-            let k = s.bool();
-            let v = s.bool();
-            TE::Mapping { key: tv(1 + k as usize), value: tv(1 + v as usize) }
+        K_MAPPING | K_FIXED => {
+            p.a = s.bool();
+            p.b = s.bool();
         }
         K_DYN => {
-            let e = s.bool();
-            TE::DynamicArray { element: tv(1 + e as usize) }
+            p.a = s.bool();
         }
-        K_FIXED => {
-            let e = s.bool();
-            let l = s.bool();
-            TE::FixedArray { element: tv(1 + e as usize), length: U256::new(2 + l as u128) }
-        }
+        _ => {}
+    }
+    p
+}
+
+/// The element of D described by `p`.
+pub fn build(p: &Payload) -> TE {
+    match p.kind {
+        K_ANY => TE::Any,
+        K_BYTES => TE::Bytes,
+        K_WORD => TE::Word { width: WIDTHS[p.wc as usize], usage: usage_of(p.uc) },
+        K_MAPPING => TE::Mapping { key: tv(1 + p.a as usize), value: tv(1 + p.b as usize) },
+        K_DYN => TE::DynamicArray { element: tv(1 + p.a as usize) },
+        K_FIXED => TE::FixedArray { element: tv(1 + p.a as usize), length: U256::new(2 + p.b as u128) },
         _ => TE::Conflict { conflicts: Vec::new(), reasons: Vec::new() },
     }
+}
+
+/// An element of D of the given (concrete) kind with symbolic payload.
+pub fn elem<S: Src>(s: &mut S, kind: u8) -> TE {
+    let p = payload(s, kind);
+    build(&p)
 }
 
 /// Normal form of an outcome.
@@ -217,11 +237,11 @@ pub fn merge2(a: TE, b: TE, st: &mut TypeCheckerState) -> (TE, bool, u8) {
 
 /// S: merge(a, b) ~ merge(b, a) for every a of kind KA and b of kind KB.
 pub fn symmetric<S: Src, const KA: u8, const KB: u8>(s: &mut S) {
-    let a = elem(s, KA);
-    let b = elem(s, KB);
+    let a = payload(s, KA);
+    let b = payload(s, KB);
     with_state(|st| {
-        let (e1, q1, x1) = merge2(a.clone(), b.clone(), st);
-        let (e2, q2, x2) = merge2(b, a, st);
+        let (e1, q1, x1) = merge2(build(&a), build(&b), st);
+        let (e2, q2, x2) = merge2(build(&b), build(&a), st);
         let n1 = normal(&e1, q1, x1);
         let n2 = normal(&e2, q2, x2);
         s.reached();
@@ -265,20 +285,20 @@ fn continue_with<R>(x: &TE, mut k: impl FnMut(TE) -> R) -> Option<R> {
 
 /// T: merge(merge(a,b),c) ~ merge(a,merge(b,c)).
 pub fn associative<S: Src, const KA: u8, const KB: u8, const KC: u8>(s: &mut S) {
-    let a = elem(s, KA);
-    let b = elem(s, KB);
-    let c = elem(s, KC);
+    let a = payload(s, KA);
+    let b = payload(s, KB);
+    let c = payload(s, KC);
     with_state(|st| {
-        let (ab, q1, x1) = merge2(a.clone(), b.clone(), st);
+        let (ab, q1, x1) = merge2(build(&a), build(&b), st);
         let l = continue_with(&ab, |ab| {
-            let (ab_c, q2, x2) = merge2(ab, c.clone(), st);
+            let (ab_c, q2, x2) = merge2(ab, build(&c), st);
             let n = normal(&ab_c, q1 || q2, x1.saturating_add(x2));
             std::mem::forget(ab_c);
             n
         });
-        let (bc, q3, x3) = merge2(b, c, st);
+        let (bc, q3, x3) = merge2(build(&b), build(&c), st);
         let r = continue_with(&bc, |bc| {
-            let (a_bc, q4, x4) = merge2(a.clone(), bc, st);
+            let (a_bc, q4, x4) = merge2(build(&a), bc, st);
             let n = normal(&a_bc, q3 || q4, x3.saturating_add(x4));
             std::mem::forget(a_bc);
             n
@@ -413,10 +433,11 @@ pub fn join_word_word<S: Src>(s: &mut S) {
 
 /// Equal constructors keep their structure and emit exactly their component equalities.
 pub fn join_same_constructor<S: Src, const K: u8>(s: &mut S) {
-    let a = elem(s, K);
-    let b = elem(s, K);
+    let pa = payload(s, K);
+    let pb = payload(s, K);
+    let (a, b) = (build(&pa), build(&pb));
     with_state(|st| {
-        let m = merge(a.clone(), b.clone(), tv(0), st);
+        let m = merge(build(&pa), build(&pb), tv(0), st);
         s.reached();
         assert!(m.judgements.is_empty() && m.ty_vars.is_empty(), "C15 join: same-constructor join emitted judgements or variables");
         match (&a, &b, &m.expression) {
@@ -472,11 +493,13 @@ pub fn join_same_constructor<S: Src, const K: u8>(s: &mut S) {
 
 /// `Any` is the identity (both orders), for every x in D of kind K.
 pub fn join_any_identity<S: Src, const K: u8>(s: &mut S) {
-    let x = elem(s, K);
+    let px = payload(s, K);
     with_state(|st| {
+        let x = build(&px);
         let nx = normal(&x, false, 0);
-        let (e1, q1, x1) = merge2(TE::Any, x.clone(), st);
-        let (e2, q2, x2) = merge2(x, TE::Any, st);
+        std::mem::forget(x);
+        let (e1, q1, x1) = merge2(TE::Any, build(&px), st);
+        let (e2, q2, x2) = merge2(build(&px), TE::Any, st);
         s.reached();
         assert!(normal(&e1, q1, x1) == nx, "C15 join: merge(Any, x) is not x");
         assert!(normal(&e2, q2, x2) == nx, "C15 join: merge(x, Any) is not x");
@@ -488,14 +511,14 @@ pub fn join_any_identity<S: Src, const K: u8>(s: &mut S) {
 /// Plain contradictions across constructors: a mapping against an array (dynamic or
 /// fixed) or against a sized word, in both orders.
 pub fn join_contradictions<S: Src, const K: u8>(s: &mut S) {
-    let m = elem(s, K_MAPPING);
-    let o = elem(s, K);
-    if let TE::Word { width, .. } = &o {
-        s.assume(width.is_some());
+    let pm = payload(s, K_MAPPING);
+    let po = payload(s, K);
+    if K == K_WORD {
+        s.assume(po.wc != 0);
     }
     with_state(|st| {
-        let (e1, _, _) = merge2(m.clone(), o.clone(), st);
-        let (e2, _, _) = merge2(o, m, st);
+        let (e1, _, _) = merge2(build(&pm), build(&po), st);
+        let (e2, _, _) = merge2(build(&po), build(&pm), st);
         s.reached();
         assert!(matches!(e1, TE::Conflict { .. }), "C15 contradiction: mapping against array / sized word does not conflict");
         assert!(matches!(e2, TE::Conflict { .. }), "C15 contradiction: array / sized word against mapping does not conflict");
